@@ -43,6 +43,8 @@ Lemma ul_sound2_121 : holds (chk_ul_sound2 T121).
 Proof. vm_compute. reflexivity. Qed.
 Lemma cand2_complete121 : holds (chk_cand2_complete T121 R121).
 Proof. vm_compute. reflexivity. Qed.
+Lemma ul_valid121 : holds (chk_ul_valid T121).
+Proof. vm_compute. reflexivity. Qed.
 
 (* ---- lifted to all runes by the generic lemmas of FoldFacts2.v ---- *)
 
@@ -106,4 +108,18 @@ Proof.
   unfold fold121.
   exact (FoldFacts2.cand2_exact T121 R121 range121 pairs121 members121 singletons121
            fx_sound121 ul_sound2_121 cand2_complete121 u r).
+Qed.
+
+(* the ToUpperLower step (with the U+0130 / U+0131 special case) returns scalar values that fold like u *)
+Theorem ul_hack_facts u :
+  valid_rune u = true ->
+  fold121 (fst (ul_hack_of T121 u)) = fold121 u /\ fold121 (snd (ul_hack_of T121 u)) = fold121 u /\
+  valid_rune (fst (ul_hack_of T121 u)) = true /\ valid_rune (snd (ul_hack_of T121 u)) = true.
+Proof.
+  intros V.
+  assert (Hu : 0 <= u <= MaxRune) by (unfold valid_rune, MaxRune in *; lia).
+  pose proof (FoldFacts2.ul_hack_cases T121 R121 range121 pairs121 members121
+                ul_sound2_121 cand2_complete121 u Hu) as (F1 & F2 & _).
+  pose proof (FoldFacts2.ul_hack_valid T121 R121 range121 pairs121 members121 ul_valid121 u V) as (V1 & V2).
+  unfold fold121. repeat split; assumption.
 Qed.
